@@ -158,6 +158,7 @@ type cycleReport struct {
 	Obs      obs      `json:"obs"`
 	Query    queryObs `json:"query"`
 	Finished bool     `json:"finished_without_error"`
+	Note     string   `json:"note,omitempty"`
 }
 
 type witness struct {
@@ -336,6 +337,8 @@ func rulesFor(fs []mfault, alt int) []rule {
 			r.Op, r.Tier, r.Action = "WriteReader", "cold", "crash_before"
 		case "crash:copy_mid":
 			r.Op, r.Tier, r.Action = "WriteReader", "cold", "crash_mid"
+		case "crash:copy_full":
+			r.Op, r.Tier, r.Action = "WriteReader", "cold", "crash_full"
 		case "crash:copy_end":
 			r.Op, r.Tier, r.Action = "WriteReader", "cold", "crash_after"
 		case "crash:src_delete":
@@ -462,6 +465,9 @@ func boolsToState(b []bool) []string {
 func faultPath(cs []mcycle) string {
 	var parts []string
 	for _, c := range cs {
+		if c.Ended == "aged" {
+			parts = append(parts, "window-elapsed")
+		}
 		for _, f := range c.Faults {
 			parts = append(parts, f.At+"/"+f.Kind)
 		}
@@ -544,6 +550,20 @@ func main() {
 		var drift string
 		realised := true
 		for ci, cyc := range sc.Cycles {
+			if cyc.Ended == "aged" {
+				// more than the 48 h reconciliation window passes while no cycle runs: only the age of
+				// migrated_at changes
+				mdb, err := sql.Open("sqlite3", filepath.Join(dir, "meta.db"))
+				if err != nil {
+					finish("aging: " + err.Error())
+				}
+				if _, err := mdb.Exec(`UPDATE tier_files SET migrated_at = datetime(migrated_at, '-3 days') WHERE migrated_at IS NOT NULL`); err != nil {
+					finish("aging: " + err.Error())
+				}
+				mdb.Close()
+				w.Cycles = append(w.Cycles, cycleReport{Note: "reconciliation window elapsed (migrated_at back-dated 3 days)", Errors: -1})
+				continue
+			}
 			rules := rulesFor(cyc.Faults, idx+ci+*seed)
 			for _, r := range rules {
 				if r.Op == "?" {
